@@ -533,8 +533,8 @@ impl ViCut {
 						match &mut v_mut.1 {
 							Verb::ReplaceCharInplace(_,n) |
 							Verb::ToggleCaseInplace(n) => *n = count as u16,
-							// A put keeps its count on the verb
-							Verb::Put(_) => v_mut.0 = count,
+							// A put and a join keep their count on the verb
+							Verb::Put(_) | Verb::JoinLines => v_mut.0 = count,
 							_ => {}
 						}
 						if let Some(m_mut) = cmd.motion.as_mut() {
